@@ -34,6 +34,7 @@ type Case struct {
 	PoolShim   bool     `json:"pool_shim"`
 	Nest       int      `json:"nest"`        // Transaction blocks around the operation (0..3)
 	ViaSession bool     `json:"via_session"` // Session{Context} instead of WithContext
+	Sibling    int      `json:"sibling,omitempty"` // 1..5: other handles bound to another context are derived from the operation's handle first and abandoned
 	Warm       bool     `json:"warm"`        // run the operation once before (statements already prepared / schemas parsed)
 	HookStmts  bool     `json:"hook_stmts"`  // model hooks issue a statement of their own through the *gorm.DB they are given
 	MaxSites   int      `json:"max_sites"`
@@ -70,6 +71,9 @@ func (Prop) Gen(r *core.Rand, tier string) interface{} {
 	c := &Case{Prepare: r.Chance(40), PoolShim: r.Chance(70), ViaSession: r.Chance(30), Warm: r.Chance(30), HookStmts: r.Chance(30), Pick: r.Int63()}
 	if r.Chance(50) {
 		c.Nest = r.Range(1, 3)
+	}
+	if r.Chance(35) {
+		c.Sibling = r.Range(1, 5)
 	}
 	switch x := r.Intn(10); {
 	case x < 5:
@@ -122,6 +126,7 @@ func (Prop) Shrink(ci interface{}) []interface{} {
 	for _, f := range []func(v *Case) bool{
 		func(v *Case) bool { x := v.Prepare; v.Prepare = false; return x },
 		func(v *Case) bool { x := v.ViaSession; v.ViaSession = false; return x },
+		func(v *Case) bool { x := v.Sibling != 0; v.Sibling = 0; return x },
 		func(v *Case) bool { x := v.Warm; v.Warm = false; return x },
 		func(v *Case) bool { x := v.HookStmts; v.HookStmts = false; return x },
 	} {
@@ -216,6 +221,24 @@ func (p Prop) exec(c *Case, cancelAt int) (*execInfo, error) {
 			h = e.DB.Session(&gorm.Session{Context: ctx})
 		} else {
 			h = e.DB.WithContext(ctx)
+		}
+		if c.Sibling != 0 {
+			// other handles derived from h and bound to another (cancelled) context:
+			// deriving them must not rebind h
+			other, cancelOther := context.WithCancel(context.WithValue(context.Background(), tagKey{}, "sibling-ctx"))
+			cancelOther()
+			switch c.Sibling {
+			case 1:
+				_ = h.WithContext(other)
+			case 2:
+				_ = h.Session(&gorm.Session{Context: other})
+			case 3:
+				_ = h.Session(&gorm.Session{NewDB: true, Context: other})
+			case 4:
+				_ = h.Session(&gorm.Session{NewDB: true, Context: other, SkipHooks: true})
+			default:
+				_ = h.Session(&gorm.Session{NewDB: true, Context: other}).Model(&fam.Note{}).Where("rank >= ?", 0) // a chain built on the sibling and abandoned
+			}
 		}
 		var res ops.Result
 		var nest func(db *gorm.DB, n int) error
